@@ -213,8 +213,8 @@ def spec() -> Spec:
         extract=extract,
         nontrivial=nontrivial,
         post=post,
-        budget={"quick": 12000, "thorough": 400000},
-        search_budget={"quick": 40000, "thorough": 400000},
+        budget={"quick": 12000, "thorough": 240000},
+        search_budget={"quick": 40000, "thorough": 240000},
         divergence_is_violation=True,
         batch=4000,
         rule="8 datagrams per case; structured Binding responses (attribute sequences with fillers, MAPPED/XOR-MAPPED for families "
